@@ -242,7 +242,7 @@ def run(ctx):
     def noop(ctx_, e, bindir):
         return None
 
-    core.standard_check(ctx, harness_bin="c04", n_quick=12000, n_thorough=120000, nontrivial=nontrivial,
+    core.standard_check(ctx, harness_bin="c04", n_quick=12000, n_thorough=90000, nontrivial=nontrivial,
                         known_replay=noop, post=post, search_more=search_more,
                         trusted=["Lean model of Rust std integer operations (checked_*, try_from, i128) by their documented semantics",
                                  "py/c04_oracle.py under CPython 3.11 (run-time semantics of the expression trees; also validates Spec.lean)",
